@@ -837,6 +837,29 @@ void blake3_compress_subtree_wide_join_tbb(const uint32_t key[8], uint8_t flags,
   }
 }
 
+/* ---- C updnull: blake3_hasher_update(h, NULL, 0), the documented "empty vector" call (visible to the sanitizer builds) */
+static void do_updnull(void *v) {
+  (void)v;
+  blake3_hasher_update(hslot(), NULL, 0);
+}
+static int op_updnull(char **t, int nt) {
+  if (nt != 1) return -1;
+  reg_t *r = reg_find(t[0]);
+  if (!r) return -1;
+  memcpy(hslot(), &r->h, sizeof(blake3_hasher));
+  int sanb = san_begin();
+  int sig = guarded(do_updnull, NULL);
+  int fl = sig_flag(sig) | san_flag(sanb);
+  if (sig == 0 && memcmp(hslot(), &r->h, sizeof(blake3_hasher)) != 0) fl |= FLAG_MUTATED;
+  if (fl & FLAG_FAULT)
+    fputs("FAULT", OUT);
+  else
+    fputs("ok", OUT);
+  if (fl & FLAG_MUTATED) fputs(" MUTATED", OUT);
+  if (fl & FLAG_SAN) fputs(" SAN", OUT);
+  return 0;
+}
+
 /* ---- C fin / finseek */
 
 struct fin_arg {
@@ -1426,6 +1449,7 @@ static int dispatch(char **t, int nt) {
     if (strcmp(op, "initraw") == 0) return op_initraw(r, n);
     if (strcmp(op, "upd") == 0) return op_upd(r, n, false);
     if (strcmp(op, "updtbb") == 0) return op_upd(r, n, true);
+    if (strcmp(op, "updnull") == 0) return op_updnull(r, n);
     if (strcmp(op, "fin") == 0) return op_fin(r, n, false);
     if (strcmp(op, "finseek") == 0) return op_fin(r, n, true);
     if (strcmp(op, "reset") == 0) return op_reset(r, n);
